@@ -1,12 +1,27 @@
 (** C16 — The TZif and TZ-rule readers accept well-formed data and survive everything else.
-    Property theorems only: each is closed by [exact] of a lemma from Proofs/C16.v and followed by
+    Property theorems only: each is closed by [exact] of a lemma from Proofs/ and followed by
     [Print Assumptions].  Model functions are the line-by-line transcriptions of
     src/offset/local/tz_info/{parser,timezone,rule}.rs in Model/Tz*.v, with trapping integer
-    arithmetic, slicing and indexing ([Val] / [Panic]). *)
+    arithmetic, slicing and indexing ([Val] / [Panic] / [OutOfFuel]); no function of the model uses
+    fuel, every recursion is structural in the input.
+
+    [data_ok d]    : d is a byte string (every element 0..255) shorter than isize::MAX.
+    [postr x Q]    : x = Val r for some r (no trap), and Q holds of the value when r = Ok _.
+    [zone_wf z]    : at least one type; every type has an offset inside i32 other than i32::MIN and a
+                     name that is absent or 3..7 characters of [0-9A-Za-z+-]; every transition time
+                     is an i64, points at an existing type, times increase strictly; leap records
+                     have i64 times, i32 corrections, increasing times; the footer rule is [rule_ok].
+    [rule_ok r]    : types as above, rule days in range (J 1..365, n 0..365, M 1..12 . 1..5 . 0..6),
+                     switch times strictly below one week in absolute value.
+    [hdr_layout h d] : the six counts of header h are the big-endian words at offsets 20..43 of d. *)
 From Coq Require Import ZArith List Bool.
-From V Require Import Base.Int Base.IO Model.TzParser Model.TzRule Model.TzLookup Proofs.C16.
+From V Require Import Base.Int Base.IO Model.TzParser Model.TzRule Model.TzLookup.
+From V Require Import Spec.TzWriter.
+From V Require Import Proofs.TzCommon Proofs.TzEval Proofs.TzGrammar Proofs.TzRoundtrip Proofs.TzWriterRoundtrip Proofs.C16.
 Import ListNotations.
 Open Scope Z_scope.
+
+(** *** Readers are total: a zone or an error value, for every byte string *)
 
 (* the bounds-checked cursor: exactly the next [count] bytes or an error value, never a trap *)
 Theorem C16_read_exact : forall N c count, cur_ok N c ->
@@ -16,12 +31,70 @@ Theorem C16_read_exact : forall N c count, cur_ok N c ->
 Proof. exact read_exact_spec. Qed.
 Print Assumptions C16_read_exact.
 
-(* semantic validation: an accepted zone has a type, in-range type indices, increasing times *)
+Theorem C16_parse_total : forall data, data_ok data -> exists r, parse data = Val r.
+Proof. exact parse_total. Qed.
+Print Assumptions C16_parse_total.
+
+Theorem C16_rule_total : forall s ext, data_ok s -> exists r, from_tz_string s ext = Val r.
+Proof. exact rule_total. Qed.
+Print Assumptions C16_rule_total.
+
+(** *** Acceptance is sound *)
+
+(* magic, and a well-formed zone: indices in bounds, strictly increasing transitions, valid
+   names, valid footer rule *)
+Theorem C16_accept_sound : forall data z, data_ok data -> parse data = Val (Ok z) ->
+  zone_wf z /\ exists rest, data = 84 :: 90 :: 105 :: 102 :: rest.
+Proof. exact accept_sound. Qed.
+Print Assumptions C16_accept_sound.
+
+(* counts agree with the data: the block the first header announces lies inside the file (exactly
+   the file for version 1), so truncated data is rejected *)
+Theorem C16_accept_counts : forall data z, data_ok data -> parse data = Val (Ok z) ->
+  exists h, hdr_ok h /\ hdr_layout h data /\ block_size h 4 <= zlen data /\
+            (h_version h = V1 -> block_size h 4 = zlen data).
+Proof. exact accept_counts. Qed.
+Print Assumptions C16_accept_counts.
+
+(* semantic validation on its own, for any constructor arguments *)
 Theorem C16_tz_new_sound : forall tr ty lp rule z, tz_new tr ty lp rule = Val (Ok z) ->
   z = mk_tz tr ty lp rule /\ ty <> [] /\
   Forall (fun t => tr_idx t < zlen ty) tr /\ increasing (map tr_time tr).
 Proof. exact tz_new_sound. Qed.
 Print Assumptions C16_tz_new_sound.
+
+Theorem C16_rule_accept_sound : forall s ext r, data_ok s -> from_tz_string s ext = Val (Ok r) -> rule_ok r.
+Proof. exact rule_accept_sound. Qed.
+Print Assumptions C16_rule_accept_sound.
+
+(** *** An accepted zone answers every query without trapping *)
+
+(* every i64 instant; every wall-clock reading (year as wide as i32, any timestamp) *)
+Theorem C16_lookup_total : forall data z, data_ok data -> parse data = Val (Ok z) ->
+  (forall t, in_i64 t = true -> exists r, find_local_time_type z t = Val r) /\
+  (forall y lt, -2147483650 <= y <= 2147483650 -> exists r, find_local_time_type_from_local z y lt = Val r).
+Proof. exact lookup_total. Qed.
+Print Assumptions C16_lookup_total.
+
+(* the same for any well-formed zone, however it was built (e.g. from a TZ string) *)
+Theorem C16_lookup_total_wf : forall z t, zone_wf z -> in_i64 t = true ->
+  postr (find_local_time_type z t) (fun _ => True).
+Proof. exact find_local_time_type_total. Qed.
+Print Assumptions C16_lookup_total_wf.
+Theorem C16_lookup_local_total_wf : forall z y lt, zone_wf z -> -2147483650 <= y <= 2147483650 ->
+  postr (find_local_time_type_from_local z y lt) (fun _ => True).
+Proof. exact find_local_time_type_from_local_total. Qed.
+Print Assumptions C16_lookup_local_total_wf.
+
+(* rule evaluation: the answer is one of the two types of the rule *)
+Theorem C16_rule_lookup_total : forall a t, alt_ok a -> in_i64 t = true ->
+  postr (alt_find_local_time_type a t) (fun l => l = a_std a \/ l = a_dst a).
+Proof. exact alt_find_local_time_type_total. Qed.
+Print Assumptions C16_rule_lookup_total.
+Theorem C16_rule_lookup_local_total : forall r y lt, rule_ok r -> -2147483650 <= y <= 2147483650 ->
+  postr (rule_find_local_time_type_from_local r y lt) (fun _ => True).
+Proof. exact rule_find_local_time_type_from_local_total. Qed.
+Print Assumptions C16_rule_lookup_local_total.
 
 (* the repaired wall-clock scan never traps, whatever the transition times and offsets *)
 Theorem C16_local_loop_total : forall types trs prev t,
@@ -29,3 +102,75 @@ Theorem C16_local_loop_total : forall types trs prev t,
   exists r, local_loop types trs prev t = Val r.
 Proof. exact local_loop_total. Qed.
 Print Assumptions C16_local_loop_total.
+
+(* calendar pieces of the rule evaluation stay in range for every i32 year *)
+Theorem C16_from_timespec_total : forall t, in_i64 t = true ->
+  postr (from_timespec t) (fun '(y, _, _, _, _, _) => in_i32 y = true).
+Proof. exact from_timespec_spec. Qed.
+Print Assumptions C16_from_timespec_total.
+Theorem C16_transition_date_range : forall d year, day_ok d -> -2147483650 <= year <= 2147483650 ->
+  post (transition_date d year) (fun '(m, md) => 1 <= m <= 12 /\ 1 <= md <= 32).
+Proof. exact transition_date_spec. Qed.
+Print Assumptions C16_transition_date_range.
+
+(** *** What a conforming writer emits is read back exactly *)
+
+(* every rule of the two documented forms ([std offset] / [std offset dst offset,start/time,end/time]),
+   printed by the specification writer Spec/TzWriter.v (quoted names of 3..7 permitted characters,
+   offsets up to 24:59:59, rule times 0..24:59:59, or -167:59:59..167:59:59 with the v3 extension) *)
+Theorem C16_rule_roundtrip : forall r ext, rule_printable r ext ->
+  from_tz_string (print_rule r ext) ext = Val (Ok r).
+Proof. exact rule_roundtrip. Qed.
+Print Assumptions C16_rule_roundtrip.
+Example C16_rule_roundtrip_inhabited :
+  rule_printable (Fixed (mk_ltt (-36000) false (Some [72; 83; 84]))) false /\
+  rule_printable (Alternate (mk_alt (mk_ltt (-10800) false (Some [45; 48; 51])) (mk_ltt (-7200) true (Some [45; 48; 50]))
+                                    (MonthWeekday 3 5 0) (-7200) (MonthWeekday 10 5 0) (-3600))) true.
+Proof. exact rule_printable_examples. Qed.
+Print Assumptions C16_rule_roundtrip_inhabited.
+
+(* TZif files of the specification writer Spec/TzWriter.v are accepted and yield exactly the
+   transitions and types that were written: version 1 (32-bit times), and the version 2 / 3 layout
+   (minimal 32-bit block, 64-bit block with times over the whole i64 range, empty footer).
+   PARTIAL with respect to the property text: the writer emits no leap-second records, no
+   standard/wall or UT/local indicator bytes and no footer rule (a non-empty footer needs the
+   consistency of the rule with the last transition, i.e. rule evaluation, in the round trip);
+   those parts are covered by the differential run against the Python writer of gen/C16.py and
+   the system zoneinfo files only. *)
+Theorem C16_writer_roundtrip_v1_partial : forall z, zone_writable 4 z -> parse (write_tzif_v1 z) = Val (Ok z).
+Proof. exact writer_roundtrip_v1. Qed.
+Print Assumptions C16_writer_roundtrip_v1_partial.
+Theorem C16_writer_roundtrip_v23_partial : forall ver z, (ver = 50 \/ ver = 51) -> zone_writable 8 z ->
+  parse (write_tzif_v23 ver z) = Val (Ok z).
+Proof. exact writer_roundtrip_v23. Qed.
+Print Assumptions C16_writer_roundtrip_v23_partial.
+Example C16_writer_roundtrip_inhabited : zone_writable 4 example_zone_v1 /\ zone_writable 8 example_zone_v2.
+Proof. exact example_zones_writable. Qed.
+Print Assumptions C16_writer_roundtrip_inhabited.
+
+(** *** Witnesses *)
+Example C16_example_file_accepted :
+  data_ok example_v1_file /\
+  parse example_v1_file =
+    Val (Ok (mk_tz [mk_tr (-1230749160) 1]
+                   [mk_ltt (-18840) false (Some [81; 77; 84]); mk_ltt (-18000) false (Some [69; 67; 84])]
+                   [] None)).
+Proof. exact example_v1_file_accepted. Qed.
+Print Assumptions C16_example_file_accepted.
+Example C16_example_rule_accepted :
+  data_ok example_tz_string /\
+  from_tz_string example_tz_string false =
+    Val (Ok (Alternate (mk_alt (mk_ltt (-18000) false (Some [69; 83; 84])) (mk_ltt (-14400) true (Some [69; 68; 84]))
+                               (MonthWeekday 3 2 0) 7200 (MonthWeekday 11 1 0) 7200))).
+Proof. exact example_tz_string_accepted. Qed.
+Print Assumptions C16_example_rule_accepted.
+Example C16_example_damaged_rejected :
+  parse (removelast example_v1_file) = Val (Err EIo) /\
+  parse (0 :: tl example_v1_file) = Val (Err EInvalidTzFile).
+Proof. exact example_truncated_rejected. Qed.
+Print Assumptions C16_example_damaged_rejected.
+(* what the repair removed: the plain addition traps on a transition time a file may carry *)
+Example C16_unrepaired_addition_traps :
+  add_i64 (i64_max - 10) 3600 = Panic /\ saturating_add_i64 (i64_max - 10) 3600 = i64_max.
+Proof. exact example_unrepaired_add_traps. Qed.
+Print Assumptions C16_unrepaired_addition_traps.
